@@ -485,6 +485,9 @@ func runFile(path string) {
 		if !ph && os.Getenv("LISTING") != "" {
 			fmt.Println(printProgram(dp.Program))
 		}
+		if ph && os.Getenv("LISTING_PH") != "" {
+			fmt.Println(printProgram(dp.Program))
+		}
 		fmt.Printf("direct peephole=%v %s\n", ph, observe(runDirect(dp)))
 	}
 }
